@@ -85,14 +85,16 @@ sensitivity)
     t0=$(date +%s)
     out="$(VERIF_MAX_VIOLATIONS="${VERIF_MAX_VIOLATIONS:-80}" VERIF_REPO_OVERRIDE="$WT" VERIF_TARGET_DIR="$SIM/target/mut" VERIF_OUT="$OUTD" VERIF_SCALE="${VERIF_SCALE:-100}" "$HERE/check" "$prop" quick 2>&1)"; r=$?
     t1=$(date +%s)
-    v="$(echo "$out" | grep -m1 '^VIOLATION' || true)"
-    rp="$(echo "$v" | sed -n 's/.*replay=\(.*\)$/\1/p')"
-    rr="-"
-    if [ $r -eq 1 ] && [ -n "$rp" ] && [ -f "$rp" ]; then
-      VERIF_REPO_OVERRIDE="$WT" VERIF_TARGET_DIR="$SIM/target/mut" VERIF_OUT="$OUTD" "$HERE/check" replay "$rp" > "$OUTD/replay.log" 2>&1; rr=$?
-      kind="$(python3 -c 'import json,sys; e=json.load(open(sys.argv[1])).get("expected",{}); print(e.get("signature","?"))' "$rp" 2>/dev/null)"
-    else
-      kind="-"
+    # a check may report several violations; the change counts as caught if any of their replay
+    # files reproduces in a fresh process
+    rr="-"; kind="-"
+    if [ $r -eq 1 ]; then
+      while read -r rp; do
+        [ -n "$rp" ] && [ -f "$rp" ] || continue
+        VERIF_REPO_OVERRIDE="$WT" VERIF_TARGET_DIR="$SIM/target/mut" VERIF_OUT="$OUTD" "$HERE/check" replay "$rp" > "$OUTD/replay.log" 2>&1; rr=$?
+        kind="$(python3 -c 'import json,sys; e=json.load(open(sys.argv[1])).get("expected",{}); print(e.get("signature","?"))' "$rp" 2>/dev/null)"
+        [ "$rr" = "1" ] && break
+      done < <(echo "$out" | sed -n 's/^VIOLATION .*replay=\(.*\)$/\1/p')
     fi
     if [ $r -eq 1 ] && [ "$rr" = "1" ]; then verdict="CAUGHT"; else
       verdict="MISSED(exit=$r replay=$rr)"; rc=1
